@@ -75,8 +75,45 @@ def streams(tier, rng):
         yield "garbage_" + tag, "verdict", garbage
 
 
+import builtins as _bi
+
+
+def _as_view(x=b""):
+    return memoryview(_bi.bytes(x))
+
+
+def _as_barray(x=b""):
+    return bytearray(_bi.bytes(x))
+
+
 def impl(op, a):
-    return xcut.impl(op, a[:-1])
+    """Every third case hands the decoder a bytearray instead of bytes: the adapters of all modules build their inputs with
+    `bytes(...)`, which is shadowed in the adapter module's globals for the duration of the call."""
+    kind = (len(a[0]) + op) % 15
+    mod = xcut.module(op // 100)
+    sub = None
+    if hasattr(mod, "PARTS"):
+        for p_ in mod.PARTS:
+            if p_.OP_RANGE[0] <= op <= p_.OP_RANGE[1]:
+                sub = p_
+    targets = [m for m in (mod, sub) if m is not None]
+    # memoryview inputs were tried too: the unchanged library itself is inconsistent on them (e.g.
+    # MetadataPdu.unpack(memoryview) raises AttributeError on some malformed inputs); the decoders are
+    # annotated `bytes`, so bytes-like objects other than bytes / bytearray are outside the claim.
+    repl = _as_barray if kind % 3 == 0 else None
+    if repl is None:
+        return xcut.impl(op, a[:-1])
+    saved = [(m, m.__dict__.get("bytes", None)) for m in targets]
+    try:
+        for m in targets:
+            m.__dict__["bytes"] = repl
+        return xcut.impl(op, a[:-1])
+    finally:
+        for m, old in saved:
+            if old is None:
+                m.__dict__.pop("bytes", None)
+            else:
+                m.__dict__["bytes"] = old
 
 
 def oracle(case, ires, sres):
